@@ -290,6 +290,10 @@ func TestCheck(t *testing.T) {
 			} else {
 				tr = runInBubble(t, c)
 			}
+			var vs []Violation
+			for _, m := range p.monitors {
+				vs = append(vs, m(c, tr)...)
+			}
 			st.Evaluations++
 			st.Steps += tr.Steps
 			st.Frames += len(tr.Frames)
@@ -311,10 +315,6 @@ func TestCheck(t *testing.T) {
 						st.Samples = append(st.Samples, caseSample(c))
 					}
 				}
-			}
-			var vs []Violation
-			for _, m := range p.monitors {
-				vs = append(vs, m(c, tr)...)
 			}
 			var fresh []Violation
 			for _, v := range vs {
@@ -542,6 +542,60 @@ func init() {
 	}
 	register(&checkDef{prop: "C01", parts: c01,
 		rule: "cases are drawn by rapid from the mixed-workload generators (1-6 concurrent RPCs of mixed shapes, boundary-biased message sizes, random topology/flow-control/capacity, random schedule tape, optional termination event); non-trivial = at least one multi-chunk message was delivered, or data frames of two RPCs interleaved on the carrier, or a termination event struck while an RPC was in flight; distinct = distinct SHA-256 of the case JSON"})
+}
+
+func ntAbnormalEnd(c *Case, tr *Trace) bool {
+	// C14: at least one RPC ended abnormally (cancel, deadline, rejection, violation, tunnel end)
+	for _, o := range tr.Ops {
+		if o.Side == "caller" && !o.Pending() && (o.Kind == "recv" || o.Kind == "invoke" || o.Kind == "start") && o.Code > 0 {
+			return true
+		}
+	}
+	return false
+}
+
+func ntSenderZeroWindow(c *Case, tr *Trace) bool {
+	// some flow-controlled sender had to wait for credit: a data frame was emitted in a later step than the send op started
+	for _, o := range tr.Ops {
+		if o.Kind == "send" && (o.Pending() || o.End > o.Start) {
+			return true
+		}
+	}
+	return false
+}
+
+func ntMultiRPC(c *Case, tr *Trace) bool {
+	n := 0
+	for _, f := range tr.Frames {
+		if f.F != nil && f.F.Kind == "new_stream" && f.SendErr == "" {
+			n++
+		}
+	}
+	return n >= 2
+}
+
+func init() {
+	with := func(ps []part, nt func(*Case, *Trace) bool) []part {
+		out := append([]part{}, ps...)
+		for i := range out {
+			out[i].nontrivial = nt
+		}
+		return out
+	}
+	base := func(mons ...Monitor) []part {
+		return []part{
+			{name: "mixed", gen: genMixed, monitors: mons, labels: commonLabels, quick: 400, thorough: 12000},
+			{name: "mixed_term", gen: genMixedTerm, monitors: mons, labels: commonLabels, quick: 600, thorough: 20000},
+		}
+	}
+	register(&checkDef{prop: "C13", parts: with(base(monC13), ntMultiRPC),
+		rule: "every frame of every run of the mixed and mixed+termination generators is checked by the online protocol monitor; non-trivial = at least two tunneled streams were opened on the carrier; distinct = distinct SHA-256 of the case JSON"})
+	register(&checkDef{prop: "C14", parts: with(base(monC14), ntAbnormalEnd),
+		rule: "goroutine census and stream-table snapshots at the quiescent points of every run (after establishment, after draining, after releasing stalled actors, after ending every tunnel, after one more virtual hour); non-trivial = at least one RPC ended abnormally (cancel, deadline, rejection, tunnel end)"})
+	register(&checkDef{prop: "C06", parts: with(base(monC06Sender), ntSenderZeroWindow),
+		rule: "wire-tap invariant on every data and window_update frame; non-trivial = a sender actually had to wait for credit"})
+	register(&checkDef{prop: "C08", parts: with(base(monC08), ntMultiRPC),
+		rule: "new_stream order on the wire and handler invocation log vs caller log; non-trivial = at least two streams were opened"})
 }
 
 var _ = strings.Join
